@@ -567,6 +567,9 @@ def r20e(ctx, P):
     ctx.floor(rid, n, 1, "score-tree compilers (compile_score_node)")
 
 
+THOROUGH_FEATURES = ['r20c', 'r20d', 'r20e']
+
+
 def run(ctx, progs):
     P = progs.get("default")
     r20a(ctx, P)
